@@ -268,12 +268,15 @@ LATER = {
     "C01": " Claims inside signed assertions (sub / azp / client_id naming someone else) never decide the identity (C01_assertion_identity, "
            "C01_subject_never_identity); credential histories - re-registration under the same id, replaced / given-up keys, rotated "
            "secrets, key jars holding several symmetric keys, kid selection - with C01_current_secret_only, C01_registration_in_force, "
-           "C01_rotation_sound and the refuted witness of the recorded finding request_param-superseded-secret.",
-    "C02": " Front-channel artefacts (AuthorizeRT) and providers without / with partial per-client usage rules are in the configuration space.",
+           "C01_rotation_sound and the refuted witness of the recorded finding request_param-superseded-secret."
+           " Assertions and request objects delivered inside encrypted wrappers to providers owning decryption keys: open_assertion mirrors JWT.unpack; content that does not open to a JWS is skipped by all three JWS-based methods (C01_unsigned_content_refused), a wrapper adds no authority (C01_wrapper_no_authority, C01_wrapper_methods); model follows repair f092826.",
+    "C02": " Front-channel artefacts (AuthorizeRT) and providers without / with partial per-client usage rules are in the configuration space."
+           " The remove_inactive_token option is a configuration flag of the model (dropped tokens: t_gone; C02_gone_only_revoked); recorded finding replay-not-revoked:remove-inactive-token.",
     "C03": " Histories under partial per-client usage rules; verified logout with time passing between login and logout.",
     "C04": " The asker of an introspection request only gates whether an answer is given (may_ask); every statement of the answer is the "
            "minting session's for every admitted asker (C04_introspection_asker_independent, C04_introspection_answer_is_owners); "
-           "third parties with enforce_audience_restriction off, audience members, client-dependent user data.",
+           "third parties with enforce_audience_restriction off, audience members, client-dependent user data."
+           " Handler keys given or library-generated across independently built provider instances (C04_independent_instances_refuse, C04_reencrypted_under_other_instance_refused, C04_other_instance_cannot_forge, C04_history_instances_independent; freshness of generated keys is an explicit hypothesis).",
     "C05": " Tokens minted by the authorization endpoint itself (AuthorizeRT: response types with token / id_token) carry the grant's "
            "filtered scope (C05_front_channel_bounded), resource indicators never add scopes to a token "
            "(C05_resource_scopes_never_reach_tokens); two recorded findings about scope STATEMENTS of the resource-indicator feature "
@@ -281,31 +284,39 @@ LATER = {
     "C06": " Redirect URI LISTS through the real registration endpoint: store_list = mapM store1 (C06_registration_is_a_map, "
            "C06_registration_neighbours_irrelevant, C06_registration_order_irrelevant), whatever is served was matched against "
            "the stored form of one URI of the list (C06_registered_served_own); Model/RegFlow.v composes C19's verify_one with the matcher.",
-    "C07": " Release points are also judged against history-dependent liveness (tokens dead by rotation + code replay, revocation chains).",
+    "C07": " Release points are also judged against history-dependent liveness (tokens dead by rotation + code replay, revocation chains)."
+           " ID Tokens minted by the authorization endpoint per response type as a fifth release point (C07_authz_idt_alone_bound, C07_authz_idt_other_points_irrelevant, C07_authz_idt_userinfo_config_contributes_nothing).",
     "C08": " ID Token SEQUENCES over several sessions: after any history with fresh begins an ID Token accepted for state s - by "
            "authorization, token or refresh response - carries the nonce sent with s (C08_nonce_history, C08_record_nonce_kept, "
            "C08_refresh_service) on the repaired RP model (the record's nonce is never replaced; token / refresh compare with it).",
     "C09": " Back-channel responses (token, refresh, userinfo, routed) naming another session: the record updated is the one of the "
            "request's state for every response content (C09_backchannel_key, C09_backchannel_recorded, "
-           "C09_backchannel_named_state_untouched, C09_refresh_idtoken_bound).",
+           "C09_backchannel_named_state_untouched, C09_refresh_idtoken_bound)."
+           " Keys bound by bind_key (subject, sid) presented as states never select a record (C09_history_bound_key_never_a_state, C09_lookup_finds_record_keys_only, C09_history_lookup_unissued).",
     "C11": " Set rules (at most one of / all or none of / X comes with Y) over the FULL presence table of every such rule in the message "
            "classes: has_none_or_one_of transcribed and proved equivalent to count <= 1 for every list, permutation invariant; the CIBA "
-           "hint rule's member list regenerated from the source (set_rule_calls in Gen/Schema.v).",
+           "hint rule's member list regenerated from the source (set_rule_calls in Gen/Schema.v)."
+           " The DECLARED schema, evaluated from the class bodies' source by harness/schema_decl.py into Gen/SchemaDecl.v, equals the run-time schema (C11_declared_no_drift, C11_declared_is_runtime, C11_declared_all_evaluated, C11_all_classes_enforce_declared, C11_declared_tie_discriminates); isolation probes per module; repair c809f1f came out of it.",
     "C13": " Session look-ups through the session id after a restore, cookies across a restore, API revocations / logout on both twins, "
            "id() census of shared objects: sd_dump / sd_load model with C13_restore_loses_sharing, "
-           "C13_restore_equivalent_on_branch_keys, C13_lookup_by_session_id_restored and two refuted statements kept visible.",
+           "C13_restore_equivalent_on_branch_keys, C13_lookup_by_session_id_restored and two refuted statements kept visible."
+           " Removals after a restore, the cstate state machine of the RP store (C13_rp_store_restored, C13_rp_store_restore_anywhere, C13_rp_store_index_live) and an attribute census of every exported class; recorded finding restore-drops-session-manager-config with its refuted witness.",
     "C15": " The interactive log-in round trip: resume = to_query -> from_query over the real query-string model, extension parameters "
            "survive (C15_resume_extension_parameter_survives), the recorded pair after resume is the request's "
            "(C15_resumed_recorded_is_request_pair), token-endpoint iff over resumed flows; refuted variant for a page written from the "
-           "declared parameters only.",
+           "declared parameters only."
+           " Extension parameters and the add-on's pre/post hooks never change the verdict (C15_extras_irrelevant, C15_extras_any_two_agree, C15_extras_essential, C15_extras_resumed_irrelevant).",
     "C16": " Algorithms registered through the real registration endpoint: after an accepted registration of an advertised algorithm the "
            "permitted set is exactly that algorithm (C16_registered_exact, C16_registered_only_requested), a non-advertised one is "
-           "dropped and the registration response says so (C16_registered_dropped).",
+           "dropped and the registration response says so (C16_registered_dropped)."
+           " request_param identity from wrapped content follows repair f092826 (C16_request_param_unsigned, C16_request_param_signed); registration steps keep other clients' permitted sets (C16_registration_frame, C16_registration_wf, C16_unregistered_no_effect).",
     "C17": " Key SOURCE of a handler (given / generated from a draw supply): independently built handlers with library-generated keys "
            "refuse each other's cookies in every mode (C17_foreign_keys_refused, C17_independent_handlers_refuse under the explicit "
-           "hypothesis draws_distinct, tied to the code by chk_fresh on observed key material).",
+           "hypothesis draws_distinct, tied to the code by chk_fresh on observed key material)."
+           " Handlers with a non-default MAC algorithm (sign_alg) are part of the mode space.",
     "C18": " Salt-file life cycle over three provider instances (C18_salt_file_round_trip, "
-           "C18_same_configuration_same_subs_on_every_instance).",
+           "C18_same_configuration_same_subs_on_every_instance)."
+           " The content of the authorization request never contributes to the sub (C18_request_irrelevant and its variants per subject type / minter, C18_request_members_irrelevant, C18_request_pairwise_iff_registered_sector); model follows repair c7c9b10.",
     "C19": " The real random supply (secret(), random_client_id, registration tokens) is exercised with the clock standing still; custom "
            "scheme redirect URIs are stored as base + query (model follows repair d77dc7b).",
 }
